@@ -486,6 +486,8 @@ class ExprMixin(object):
                     and -len(base.items) <= idx.value < len(base.items):
                 return base.items[idx.value]
             if not isinstance(idx, Slice) and base.items:
+                if self.cur is not None:
+                    self.emit('lookup', node, {'list': base, 'key': idx})
                 return join(*base.items)
         if isinstance(base, DictObj):
             hits = []
@@ -499,6 +501,10 @@ class ExprMixin(object):
                     decided = False
                 hits.append(v)
             if hits:
+                if self.cur is not None:
+                    self.emit('lookup', node, {'dict': base, 'key': idx,
+                                               'keys': [k for k, _ in base.entries],
+                                               'values': list(hits)})
                 return join(*hits)
         if isinstance(base, Const) and isinstance(base.value, (str, tuple)) and \
                 isinstance(idx, Const) and isinstance(idx.value, int):
